@@ -2,6 +2,7 @@ import XProofs.Properties.C01
 #print axioms Properties.C01.C01_push_consistent
 #print axioms Properties.C01.C01_set_value
 #print axioms Properties.C01.C01_set_expr
+#print axioms Properties.C01.C01_other_locations
 #print axioms Properties.C01.C01_histories
 #print axioms Properties.C01.C01_decided
 #print axioms Properties.C01.C01_tests_sound
